@@ -114,7 +114,7 @@ def check_pair(ctx, c):
             return float(np.asarray(model.correlation(np.array([abs(r)])))[0])
 
     for r in (0.0, 0.37 * unit, 1.9 * unit):
-        if abs(rho(r) - float(ocov.correlation(d, r))) > 1e-9:
+        if not abs(rho(r) - float(ocov.correlation(d, r))) <= 1e-9:
             ctx.fail({"what": "correlation!=closed-form", "model": name, "dim": dim}, f"r={r}: {rho(r)} vs {float(ocov.correlation(d, r))}")
             return
     oft.use_correlation(d, rho)
@@ -267,7 +267,7 @@ def check_distribution(ctx, c):
             if model.has_cdf:
                 kk = np.sort(np.concatenate([[0.0], np.exp(rng.uniform(math.log(1e-3), math.log(50), size=6)) / unit]))
                 cdf = np.asarray(model.spectral_rad_cdf(kk))
-                if abs(cdf[0]) > 1e-15 or np.any(np.diff(cdf) < -1e-15) or cdf[-1] > 1 + 1e-12:
+                if not (abs(cdf[0]) <= 1e-15 and np.all(np.diff(cdf) >= -1e-15) and cdf[-1] <= 1 + 1e-12):
                     ctx.fail(dict(mech, what="cdf-not-a-distribution-function"), f"cdf {cdf}")
                     return
                 for lo, hi, c0, c1 in zip(kk[:-1], kk[1:], cdf[:-1], cdf[1:]):
@@ -277,13 +277,13 @@ def check_distribution(ctx, c):
                         ctx.fail(dict(mech, what="cdf!=integral-of-pdf"), f"{name} dim {dim}: cdf({hi})-cdf({lo}) = {c1 - c0!r}, integral of the pdf {part!r}")
                         return
                 far = float(np.asarray(model.spectral_rad_cdf(np.array([1e12 / unit])))[0])
-                if abs(far - 1.0) > 1e-9:
+                if not abs(far - 1.0) <= 1e-9:
                     ctx.fail(dict(mech, what="cdf(inf)!=1"), f"cdf at 1e12/l = {far!r}")
                     return
             if model.has_ppf:
                 u = np.array([1e-12, 1e-6, 0.01, 0.3, 0.5, 0.9, 0.999, 1 - 1e-9, 1 - 1e-12])
                 r = np.asarray(model.spectral_rad_ppf(u))
-                if np.any(np.diff(r) <= 0) or np.any(r < 0):
+                if not (np.all(np.diff(r) > 0) and np.all(r >= 0)):
                     ctx.fail(dict(mech, what="ppf-not-increasing"), f"ppf {r}")
                     return
                 back = np.asarray(model.spectral_rad_cdf(r))
@@ -298,7 +298,7 @@ def check_distribution(ctx, c):
                 r2 = np.asarray(model.spectral_rad_ppf(uu))
                 ok = (uu > 1e-12) & (uu < 1 - 1e-9)
                 amp = 1.0 / np.maximum(np.asarray(model.spectral_rad_pdf(rr)) * rr, 1e-300)
-                if np.any(np.abs(r2[ok] - rr[ok]) > (1e-9 + 1e-14 * amp[ok]) * rr[ok]):
+                if not np.all(np.abs(r2[ok] - rr[ok]) <= (1e-9 + 1e-14 * amp[ok]) * rr[ok]):
                     i = int(np.argmax(np.abs(r2 - rr) * ok))
                     ctx.fail(dict(mech, what="ppf(cdf(r))!=r"), f"{name} dim {dim}: r={rr[i]!r} -> u={uu[i]!r} -> {r2[i]!r}")
                     return
